@@ -28,10 +28,28 @@ EXPLANATION = __doc__
 PARSER = "openpectus.lang.model.parser"
 JUSTIFIED = {
     ("PcodeParser._parse_line", "line.index('#')"): "dominated by line_stripped.startswith('#'), so '#' occurs in line",
-    ("PcodeParser._parse_line", "float(threshold)"): "threshold comes from group `threshold` = \\d+(\\.\\d+)? (checked against the regex AST), a float literal",
+    ("PcodeParser._parse_line", "float(Grammar.instruction_line_pattern.match(line).groupdict().get('threshold'))"): "threshold comes from group `threshold` = \\d+(\\.\\d+)? (checked against the regex AST), a float literal",
     ("MethodLineIdGenerator.create_id", "self.method.lines[node.position.line]"): "position.line is the enumerate index of method.lines assigned in parse_method/_parse_line",
-    ("PcodeParser._parse_tag_operator_value", "float(c.tag_value or '')"): "tag_value is group `float` of condition_rhs patterns (float syntax)",
+    ("PcodeParser._parse_tag_operator_value", "float(node.tag_operator_value.tag_value or '')"): "tag_value is group `float` of condition_rhs patterns (float syntax)",
 }
+
+
+def _canon(expr: ast.AST, f, depth: int = 3) -> str:
+    """Text of expr with every single-assignment local replaced by its defining expression (bounded): a key that does not
+    change when locals are renamed."""
+    from ..util import local_single_defs
+    import copy
+    defs = local_single_defs(f)
+
+    class Sub(ast.NodeTransformer):
+        def __init__(self, d):
+            self.d = d
+
+        def visit_Name(self, n):
+            if isinstance(n.ctx, ast.Load) and n.id in defs and self.d > 0:
+                return Sub(self.d - 1).visit(copy.deepcopy(defs[n.id]))
+            return n
+    return norm(Sub(depth).visit(copy.deepcopy(expr)))
 
 
 def _acyclic_paths(g, start_edges, end_id, limit=4000):
@@ -70,16 +88,24 @@ def run(ctx) -> None:
     loops = [n for n in g.nodes if n.kind == "for"]
     if len(loops) < 2:
         raise AnchorError("parse_method: expected two loops")
-    first = [l for l in loops if norm(l.ast.iter) == "method.lines"]
-    second = [l for l in loops if "enumerate(nodes)" in norm(l.ast.iter)]
+    mpar = pm_.node.args.args[1].arg
+    first = [l for l in loops if norm(l.ast.iter) == f"{mpar}.lines"]
+    # the node list: the local the first loop appends the parsed node to (by role)
+    nodes_var = None
+    if first:
+        for c in walk_no_nested(first[0].ast):
+            if isinstance(c, ast.Call) and call_attr(c) == "append" and isinstance(c.func.value, ast.Name):
+                nodes_var = c.func.value.id
+    second = [l for l in loops if nodes_var and f"enumerate({nodes_var})" in norm(l.ast.iter)]
     if not first or not second:
-        raise AnchorError("parse_method: loops over method.lines / enumerate(nodes) not found")
+        raise AnchorError("parse_method: loops over <method>.lines / enumerate(<node list>) not found")
+    node_var = norm(second[0].ast.target.elts[1]) if isinstance(second[0].ast.target, ast.Tuple) and len(second[0].ast.target.elts) == 2 else "node"
     # first loop
     paths = _acyclic_paths(g, [(first[0].id, "loop")], first[0].id)
     ok = bool(paths)
     for p in paths:
         n_parse = sum(1 for nid in p if node_calls(g.nodes[nid], "_parse_line"))
-        n_app = sum(1 for nid in p if any(call_attr(c) == "append" and norm(c.func.value) == "nodes" for c in g.nodes[nid].calls()))
+        n_app = sum(1 for nid in p if any(call_attr(c) == "append" and norm(c.func.value) == nodes_var for c in g.nodes[nid].calls()))
         if n_parse != 1 or n_app != 1:
             ok = False
     if ok:
@@ -96,7 +122,7 @@ def run(ctx) -> None:
         cnt = 0
         for nid in p:
             for c in g.nodes[nid].calls():
-                if call_attr(c) == "append_child" and c.args and norm(c.args[0]) == "node":
+                if call_attr(c) == "append_child" and c.args and norm(c.args[0]) == node_var:
                     cnt += 1
         if cnt != 1 and bad is None:
             bad = (cnt, p)
@@ -143,13 +169,13 @@ def run(ctx) -> None:
         for n in walk_no_nested(f.node):
             key = None
             if isinstance(n, ast.Call) and isinstance(n.func, ast.Attribute) and n.func.attr == "index":
-                key = norm(n)
+                key = _canon(n, f)
             elif isinstance(n, ast.Call) and isinstance(n.func, ast.Name) and n.func.id in ("float", "int") and n.args \
                     and not isinstance(n.args[0], (ast.Constant, ast.BinOp)):  # int(<arithmetic>) is total
-                key = norm(n)
+                key = _canon(n, f)
             elif isinstance(n, ast.Subscript) and isinstance(n.ctx, ast.Load) and not isinstance(n.slice, (ast.Constant, ast.Slice)) \
                     and isinstance(n.value, (ast.Name, ast.Attribute)) and "lines" in norm(n.value):
-                key = norm(n)
+                key = _canon(n, f)
             if key is None:
                 continue
             n_partial += 1
@@ -174,10 +200,21 @@ def run(ctx) -> None:
     # the two justifications that rest on other code are re-checked
     pl = prog.func(f"{PARSER}:PcodeParser._parse_line")
     gl = cfg_of(pl)
-    idx = [n for n in gl.nodes if any(norm(c) == "line.index('#')" for c in n.calls())]
+    idx = [n for n in gl.nodes if any(isinstance(c.func, ast.Attribute) and c.func.attr == "index" and [norm(a) for a in c.args] == ["'#'"]
+                                      for c in n.calls())]
     if idx:
-        facts = facts_at(gl, idx[0])
-        if ("line_stripped.startswith('#')", True) in facts:
+        from ..util import local_single_defs as _lsd
+        ldefs = _lsd(pl)
+        lpar = pl.node.args.args[1].arg
+        # `<x>.startswith('#')` holds, where <x> is the line parameter or a local derived from it by strip()/lstrip()
+        ok_guard = False
+        for a, pol in facts_at(gl, idx[0]):
+            if pol and a.endswith(".startswith('#')"):
+                base = a[:-len(".startswith('#')")]
+                d = ldefs.get(base)
+                if base == lpar or (d is not None and norm(d) in (f"{lpar}.strip()", f"{lpar}.lstrip()")):
+                    ok_guard = True
+        if ok_guard:
             ctx.ok("R17b", "_parse_line: line.index('#') dominated by startswith('#')")
         else:
             ctx.fail("R17b", pl, idx[0].ast, "_parse_line: line.index('#') dominated by startswith('#')", "index may raise ValueError")
